@@ -7,6 +7,8 @@ import (
 	"errors"
 	"reflect"
 	"sync"
+
+	"gorm.io/gorm/utils/verifhook"
 )
 
 type Stmt struct {
@@ -48,11 +50,13 @@ func (db *PreparedStmtDB) Close() {
 
 	for _, stmt := range db.Stmts {
 		go func(s *Stmt) {
+			verifhook.At("closer.start", s)
 			// make sure the stmt must finish preparation first
 			<-s.prepared
 			if s.Stmt != nil {
 				_ = s.Close()
 			}
+			verifhook.At("closer.done", s)
 		}(stmt)
 	}
 	// setting db.Stmts to nil to avoid further using
@@ -65,11 +69,13 @@ func (sdb *PreparedStmtDB) Reset() {
 
 	for _, stmt := range sdb.Stmts {
 		go func(s *Stmt) {
+			verifhook.At("closer.start", s)
 			// make sure the stmt must finish preparation first
 			<-s.prepared
 			if s.Stmt != nil {
 				_ = s.Close()
 			}
+			verifhook.At("closer.done", s)
 		}(stmt)
 	}
 	sdb.Stmts = make(map[string]*Stmt)
@@ -88,6 +94,7 @@ func (db *PreparedStmtDB) prepare(ctx context.Context, conn ConnPool, isTransact
 		return *stmt, nil
 	}
 	db.Mux.RUnlock()
+	verifhook.At("prepare.miss", query)
 
 	db.Mux.Lock()
 	// double check
@@ -111,6 +118,7 @@ func (db *PreparedStmtDB) prepare(ctx context.Context, conn ConnPool, isTransact
 	cacheStmt := Stmt{Transaction: isTransaction, prepared: make(chan struct{})}
 	db.Stmts[query] = &cacheStmt
 	db.Mux.Unlock()
+	verifhook.At("prepare.published", query)
 
 	// prepare completed
 	defer close(cacheStmt.prepared)
@@ -121,6 +129,7 @@ func (db *PreparedStmtDB) prepare(ctx context.Context, conn ConnPool, isTransact
 	// 2. g2 select lock `conn.PrepareContext(ctx, query)`, now db.numOpen == db.maxOpen , wait for release.
 	// 3. g1 tx exec insert, wait for unlock `conn.PrepareContext(ctx, query)` to finish tx and release.
 	stmt, err := conn.PrepareContext(ctx, query)
+	verifhook.At("prepare.done", query)
 	if err != nil {
 		cacheStmt.prepareErr = err
 		db.Mux.Lock()
@@ -164,6 +173,7 @@ func (db *PreparedStmtDB) ExecContext(ctx context.Context, query string, args ..
 		if errors.Is(err, driver.ErrBadConn) {
 			db.Mux.Lock()
 			defer db.Mux.Unlock()
+			verifhook.At("evict", query)
 			go stmt.Close()
 			delete(db.Stmts, query)
 		}
@@ -179,6 +189,7 @@ func (db *PreparedStmtDB) QueryContext(ctx context.Context, query string, args .
 			db.Mux.Lock()
 			defer db.Mux.Unlock()
 
+			verifhook.At("evict", query)
 			go stmt.Close()
 			delete(db.Stmts, query)
 		}
@@ -233,6 +244,7 @@ func (tx *PreparedStmtTX) ExecContext(ctx context.Context, query string, args ..
 			tx.PreparedStmtDB.Mux.Lock()
 			defer tx.PreparedStmtDB.Mux.Unlock()
 
+			verifhook.At("evict", query)
 			go stmt.Close()
 			delete(tx.PreparedStmtDB.Stmts, query)
 		}
@@ -248,6 +260,7 @@ func (tx *PreparedStmtTX) QueryContext(ctx context.Context, query string, args .
 			tx.PreparedStmtDB.Mux.Lock()
 			defer tx.PreparedStmtDB.Mux.Unlock()
 
+			verifhook.At("evict", query)
 			go stmt.Close()
 			delete(tx.PreparedStmtDB.Stmts, query)
 		}
